@@ -780,3 +780,117 @@ func capturedCtxUses(fns []*ssa.Function) (uses []capturedCtxUse, examined int) 
 	}
 	return
 }
+
+// CTX-FORWARD: the context a function hands to a callee derives from the context it was given (its own parameter, a
+// context captured from an enclosing per-call function, a context stored in a per-run object) — never from
+// context.Background()/TODO() and never from a constructor's context.
+type ctxHandOver struct {
+	fn   *ssa.Function
+	call ssa.CallInstruction
+	arg  ssa.Value
+	kind string // "param" | "captured-per-call" | "captured-constructor" | "field" | "background" | "other"
+}
+
+func ctxRootKind(v ssa.Value, fn *ssa.Function, depth int, seen map[ssa.Value]bool) string {
+	if depth > 14 || v == nil || seen[v] {
+		return "other"
+	}
+	seen[v] = true
+	switch x := v.(type) {
+	case *ssa.Parameter:
+		return "param"
+	case *ssa.FreeVar:
+		// captured: per-call when the defining function received it as a parameter and is not a constructor
+		p := fn.Parent()
+		for p != nil {
+			for _, pp := range p.Params {
+				if pp.Name() == x.Name() && isContextType(pp.Type()) {
+					return "captured-per-call" // whether the capturing literal has a context of its own is CAPTURED-CTX's business
+				}
+			}
+			p = p.Parent()
+		}
+		return "captured-per-call"
+	case *ssa.UnOp:
+		if f, _ := loadedField(x); f != nil {
+			return "field"
+		}
+		if fv, ok := x.X.(*ssa.FreeVar); ok {
+			return ctxRootKind(fv, fn, depth+1, seen)
+		}
+		if al, ok := x.X.(*ssa.Alloc); ok {
+			best := "other"
+			for _, ref := range *al.Referrers() {
+				if st, ok := ref.(*ssa.Store); ok && st.Addr == ssa.Value(al) {
+					k := ctxRootKind(st.Val, fn, depth+1, seen)
+					if k == "background" || k == "captured-constructor" {
+						return k
+					}
+					if k != "other" {
+						best = k
+					}
+				}
+			}
+			return best
+		}
+	case *ssa.Call:
+		name := calleeFullName(x)
+		if name == "context.Background" || name == "context.TODO" {
+			return "background"
+		}
+		// a context-returning call: derives from its context argument
+		for _, a := range x.Call.Args {
+			if isContextType(a.Type()) {
+				return ctxRootKind(a, fn, depth+1, seen)
+			}
+		}
+		if x.Call.IsInvoke() && isContextType(x.Call.Value.Type()) {
+			return ctxRootKind(x.Call.Value, fn, depth+1, seen)
+		}
+		return "other"
+	case *ssa.Extract:
+		return ctxRootKind(x.Tuple, fn, depth+1, seen)
+	case *ssa.Phi:
+		best := "other"
+		for _, e := range x.Edges {
+			k := ctxRootKind(e, fn, depth+1, seen)
+			if k == "background" || k == "captured-constructor" {
+				return k
+			}
+			if k != "other" {
+				best = k
+			}
+		}
+		return best
+	case *ssa.MakeInterface:
+		return ctxRootKind(x.X, fn, depth+1, seen)
+	case *ssa.ChangeInterface:
+		return ctxRootKind(x.X, fn, depth+1, seen)
+	case *ssa.TypeAssert:
+		return ctxRootKind(x.X, fn, depth+1, seen)
+	}
+	return "other"
+}
+
+func ctxHandOvers(fns []*ssa.Function) []ctxHandOver {
+	var out []ctxHandOver
+	for _, fn := range fns {
+		instrs(fn, func(in ssa.Instruction) {
+			c, ok := in.(ssa.CallInstruction)
+			if !ok {
+				return
+			}
+			name := calleeFullName(in)
+			if strings.HasPrefix(name, "context.") || strings.HasPrefix(name, "(context.") {
+				return // deriving, not handing over
+			}
+			for _, a := range c.Common().Args {
+				if !isContextType(a.Type()) {
+					continue
+				}
+				out = append(out, ctxHandOver{fn, c, a, ctxRootKind(a, fn, 0, map[ssa.Value]bool{})})
+			}
+		})
+	}
+	return out
+}
